@@ -19,7 +19,9 @@ RULE = ("Hypothesis over HTTP-heavy API models (get/put/post/delete/patch; URI g
 ASSUMPTIONS = ["path values avoid '/', '?', '#', '%' inside single-segment variables (URL syntax handled by the HTTP library, not the generator)",
                "fields that travel as query parameters are scalars, enums, repeated scalars, nested local messages and Timestamp/Duration/"
                "FieldMask (what google.api.http allows in query position); maps and Struct/Any appear only in bodies",
-               "LRO methods over REST are exercised under C08"]
+               "LRO methods over REST are exercised under C08",
+               "unknown JSON fields are injected into replies except streamed replies of a type that is not proto-plus (those are parsed by "
+               "api-core's ResponseIterator, whose strictness is the runtime library's)"]
 
 
 def budget(tier):
